@@ -180,7 +180,7 @@ static void gen_constructor(plan_t *p, rng_t *r, int slot, int isnew, int hard, 
         plan_op(p, 0, kind, 2, (long)slot, rng_chance(r, 1, 2) ? nums[rng_below(r, 8)] : (long)rng_u64(r));
         glen[slot] = 8;
     } else if (which < 82) {
-        int nlines = rng_chance(r, 2, 3) ? 1 : rng_range(r, 2, 3);
+        int nlines = rng_chance(r, 2, 3) ? 1 : rng_range(r, 2, 4);
         size_t tot = 0;
         snprintf(kind, sizeof(kind), "%s_fp", pre);
         for (int ln = 0; ln < nlines; ln++) {
@@ -196,9 +196,11 @@ static void gen_constructor(plan_t *p, rng_t *r, int slot, int isnew, int hard, 
         if (rng_chance(r, 1, 5)) o = plan_op(p, 0, kind, 3, (long)slot, (long)nlines, 1L);       /* a stream over a descriptor */
         else o = plan_op(p, 0, kind, 2, (long)slot, (long)nlines);
         op_str(o, buf, tot);
-        { int nf = rng_range(r, 0, 8); static const int lims[] = { 1, 2, 3, 100, 1000, 4094, 4095, 4096 };
+        { int trans = o->na == 2 && nlines > 1 && !hard && rng_chance(r, 1, 2), nf = trans ? rng_range(r, 0, 2) : rng_range(r, 0, 8); static const int lims[] = { 1, 2, 3, 100, 1000, 4094, 4095, 4096 };
           for (int i = 0; i < nf; i++) op_fault(o, rng_chance(r, 1, 3) ? FAULT(FC_READ, FO_FULL, 0) : FAULT(FC_READ, FO_SHORT, lims[rng_below(r, 8)]));
-          if (hard && rng_chance(r, 1, 3)) op_fault(o, FAULT(FC_READ, FO_EIO, 0)); }       /* the stream fails after nf reads */
+          if (hard && rng_chance(r, 1, 3)) op_fault(o, FAULT(FC_READ, FO_EIO, 0));       /* the stream fails after nf reads */
+          else if (trans) { op_fault(o, FAULT(FC_READ, FO_ETRANSIENT, 0)); if (rng_chance(r, 1, 2)) op_fault(o, FAULT(FC_READ, FO_SHORT, lims[rng_below(r, 8)])); }      /* ... or one read fails and the next ones work: the caller asks again, on the same stream */
+        }
     } else {
         int nb = rng_chance(r, 1, 4);
         snprintf(kind, sizeof(kind), "%s_fd", pre);
